@@ -36,18 +36,54 @@ def brief(ev):
     return {k: v for k, v in ev.items() if k != 'objs'}
 
 
+TC = cfg(spec='TSpec', constraint='HWMark', postcondition='Accepted')
+
+
+def ops_rejected(ctx, drv, steps, name):
+    """Run one explicit operation sequence on the real objects and let TLC judge the
+    observations against the P-spec alone. Returns (rejected_at_event or None, events)."""
+    ip = os.path.join(ctx.work, name + '.json')
+    tp = os.path.join(ctx.work, name + '.ndjson')
+    vlib.write_json(ip, dict(scratch_cap=SCRATCH, steps=steps))
+    ctx.run([drv, 'ops', ip, tp])
+    seg = vlib.read_ndjson(tp)
+    acc, rej = vlib.validate_segments(ctx, 'TraceBuffer', TC, SPEC, [seg], name=name, count=False)
+    return (rej[0][1] if rej else None), seg
+
+
+def replay(ctx, data):
+    """vcheck C16 --replay <file>: run the recorded operation sequence again."""
+    r = data['replay']
+    drv = ctx.go_build('bufferd')
+    if r['kind'] == 'graph':
+        at, seg = ops_rejected(ctx, drv, r['steps'], 'replay')
+    else:
+        tp = os.path.join(ctx.work, 'replay.ndjson')
+        ctx.run([drv, 'random', tp, str(r['seed']), str(r['segment'] + 1), str(r['ops'])])
+        seg = vlib.split_segments(vlib.read_ndjson(tp))[r['segment']]
+        acc, rej = vlib.validate_segments(ctx, 'TraceBuffer', TC, SPEC, [seg], name='replay', count=False)
+        at = rej[0][1] if rej else None
+    ctx.traces += 1
+    ctx.sample(dict(kind='replay', events=[brief(e) for e in seg[:14]]))
+    if at is None:
+        print('replay: the recorded operation sequence is accepted by the byte-string spec (not reproduced)')
+    else:
+        ctx.violation('replayed operation sequence rejected by the byte-string spec at event %d: %s' % (at, brief(seg[at]) if at < len(seg) else '?'),
+                      r, key=data.get('key'))
+
+
 def run(ctx):
     drv = ctx.go_build('bufferd')
 
     # ---- E1: closed model, every chunking x every operation sequence (graph kept for E2)
-    gcfg = ctx.pick((2, 2, 2, 1), (2, 3, 2, 2))
+    gcfg = ctx.pick((2, 2, 2, 2), (2, 3, 3, 2))
     c = cfg(spec='MCSpec', constants=consts(*gcfg), invariants=INV, properties=PROPS)
     rg = ctx.tlc('MCBuffer', c, SPEC, name='MCBuffer-graph', dump_dot=True, coverage=ctx.thorough(), must_pass=True, timeout=3000)
     if ctx.thorough():
         z = [a for a in OPS if rg.cov.get(a, (0, 0))[1] == 0]
         if z:
             raise vlib.Inconclusive('vacuity: actions never taken in MCBuffer-graph: %s' % z)
-    big = ctx.pick([(2, 2, 3, 1)], [(2, 5, 3, 3), (3, 3, 2, 2)])
+    big = ctx.pick([(2, 2, 3, 2)], [(2, 5, 3, 3), (3, 3, 2, 2)])
     for b in big:
         cb = cfg(spec='MCSpec', constants=consts(*b), invariants=INV, properties=PROPS)
         ctx.tlc('MCBuffer', cb, SPEC, name='MCBuffer-%d%d%d%d' % b, must_pass=True, timeout=6000)
@@ -68,6 +104,7 @@ def run(ctx):
     vlib.write_json(sp, script)
     out = ctx.run([drv, 'graph', sp], timeout=3000)
     res = vlib.json.loads(out.stdout)
+    res['mismatches'] = res.get('mismatches') or []
     ctx.extra.update(stats)
     ctx.extra['replay_steps'] = res['steps']
     acts = res.get('extra', {}).get('actions') or {}
@@ -87,10 +124,27 @@ def run(ctx):
             continue
         seen.add(mm['path'])
         p = script['paths'][mm['path']][:mm['step'] + 1]
+        if len(seen) <= 2:
+            # reproduce once, judged by TLC against the P-spec alone (no model state involved)
+            at, _seg = ops_rejected(ctx, drv, [[s['a']] + s['args'] for s in p], 'confirm-%d' % len(seen))
+            if at is None:
+                raise vlib.Inconclusive('graph mismatch not reproduced at P-level (%s after %s): the replay compares against the model, TLC accepts the same run' % (
+                    mm['what'], [[s['a']] + s['args'] for s in p]))
         ctx.violation('pkg/buffer disagrees with the byte-string spec after step %d (%s): %s want=%s got=%s' % (
             mm['step'], p[-1]['a'] + str(p[-1]['args']), mm['what'], mm.get('want'), mm.get('got')),
             dict(kind='graph', config=dict(zip(('MaxObj', 'MaxLen', 'MaxChunks', 'MaxRes'), gcfg)),
                  steps=[[s['a']] + s['args'] for s in p], mismatch=mm))
+    # observation, not a verdict: Views()[:cap(Views())] of a capped VectorisedView still shows the
+    # dropped chunks (the list is re-sliced with two indices). Reported as a finding only if
+    # known_findings.json carries an entry for it (match.kind = "list-reextend").
+    lx = res.get('extra', {}).get('list_reextend_first')
+    if lx:
+        steps = [[s['a']] + s['args'] for s in script['paths'][lx['path']][:lx['step'] + 1]]
+        ctx.extra['list_level_reextension'] = dict(states_seen=res['extra'].get('list_reextend_count'), steps=steps, byte=lx['byte'], object=lx['object'])
+        for kf in ctx.known_findings():
+            if kf.get('property') == ctx.pid and (kf.get('match') or {}).get('kind') == 'list-reextend':
+                ctx.violation('Views()[:cap] of a capped VectorisedView exposes byte %d cut off by CapLength (object %d)' % (lx['byte'], lx['object']),
+                              dict(kind='graph', steps=steps, note='list-level re-extension'), key=kf.get('id'))
     if drift and not seen:
         d = drift[0]
         ctx.model_drift('implementation shape differs from the I-spec Buffer (%d cases), first: %s want=%s got=%s at %s' % (
@@ -117,8 +171,31 @@ def run(ctx):
     missing = [a for a in OPS if not hist.get(a)]
     if missing and not hist.get('panic'):
         raise vlib.Inconclusive('vacuity: operations never issued by the random driver: %s' % missing)
-    tc = cfg(spec='TSpec', constraint='HWMark', postcondition='Accepted')
-    acc, rej = vlib.validate_segments(ctx, 'TraceBuffer', tc, SPEC, segs, name='random', max_reruns=5, timeout=3000)
+    # binding self-test rides along: a copy of a recorded sequence with one content byte flipped
+    # (and, thorough tier, one with a trim/cap event removed) is appended; TLC must reject exactly those
+    tests = {}
+    for s in segs:
+        if 'corrupt' not in tests:
+            for k, e in enumerate(s):
+                if e.get('objs') and e['objs'][0]['b']:
+                    bad = copy.deepcopy(s)
+                    bad[k]['objs'][0]['b'][-1] ^= 1
+                    bad[k]['objs'][0]['bv'][-1] ^= 1
+                    tests['corrupt'] = bad
+                    break
+        if 'drop' not in tests and ctx.thorough():
+            for k, e in enumerate(s):
+                if e['ev'] in ('VTrim', 'VCap') and k >= 1 and e['objs'] != s[k - 1].get('objs'):
+                    tests['drop'] = s[:k] + s[k + 1:]
+                    break
+        if len(tests) == ctx.pick(1, 2):
+            break
+    names = sorted(tests)
+    allsegs = segs + [tests[nm] for nm in names]
+    acc, rej_all = vlib.validate_segments(ctx, 'TraceBuffer', TC, SPEC, allsegs, name='random-and-selftest',
+                                          max_reruns=5 + len(names), timeout=3000)
+    rej = [(si, ln) for si, ln in rej_all if si < nseg]
+    caught = [names[si - nseg] for si, _ in rej_all if si >= nseg]
     ctx.traces += acc
     ctx.sample(dict(kind='random-sequence', events=[brief(e) for e in segs[0][:14]]))
     for si, ln in rej:
@@ -127,36 +204,12 @@ def run(ctx):
         ctx.violation('random operation sequence rejected by the byte-string spec at event %d: %s' % (ln, brief(e)),
                       dict(kind='random', seed=ctx.seed, segment=si, ops=nops,
                            steps=[brief(x) for x in segs[si][:ln + 1]], objects_before=prev, observed_after=e.get('objs')))
-
-    # ---- binding self-test: one corrupted byte / one dropped event must be rejected
-    good = [i for i in range(len(segs)) if i not in set(si for si, _ in rej)]
-    done = {}
-    for si in good:
-        s = segs[si]
-        if 'corrupt' not in done:
-            for k, e in enumerate(s):
-                if e.get('objs') and e['objs'][0]['b']:
-                    bad = copy.deepcopy(s)
-                    bad[k]['objs'][0]['b'][-1] ^= 1
-                    bad[k]['objs'][0]['bv'][-1] ^= 1
-                    done['corrupt'] = bad
-                    break
-        if 'drop' not in done:
-            for k, e in enumerate(s):
-                if e['ev'] in ('VTrim', 'VCap') and k >= 1 and e['objs'] != s[k - 1].get('objs'):
-                    done['drop'] = s[:k] + s[k + 1:]
-                    break
-        if len(done) == 2:
-            break
-    if len(done) < 2 and not rej:
-        raise vlib.Inconclusive('binding self-test: no suitable segment')
-    if not ctx.thorough():
-        done.pop('drop', None)
-    for nm, b in done.items():
-        a, rj = vlib.validate_segments(ctx, 'TraceBuffer', tc, SPEC, [b], name='selftest-' + nm, count=False)
-        if not rj:
-            raise vlib.Inconclusive('binding self-test failed: %s trace accepted' % nm)
-    ctx.extra['binding_selftest'] = 'rejected by TLC: ' + ', '.join(sorted(done)) + ' (corrupt = one flipped content byte, drop = one trim/cap event removed)'
+    if not ctx.extra.get('unexamined_segments'):
+        if len(names) < ctx.pick(1, 2) and not rej:
+            raise vlib.Inconclusive('binding self-test: no suitable recorded sequence')
+        if sorted(caught) != names:
+            raise vlib.Inconclusive('binding self-test failed: accepted by TLC: %s' % sorted(set(names) - set(caught)))
+        ctx.extra['binding_selftest'] = 'rejected by TLC: ' + ', '.join(names) + ' (corrupt = one flipped content byte, drop = one trim/cap event removed)'
     ctx.assumptions += ['Go slice semantics (bounds, capacity, append into a buffer with enough capacity) as modelled by Slice2/Slice3',
                         'chunks of a VectorisedView live in distinct arrays; callers respect the contracts (View counts within 0..len, Clone buffer not in use by a live object)',
                         'content bytes are pairwise distinct within one operation sequence (byte value = byte identity)',
